@@ -119,6 +119,49 @@ theorem C08_certificate_sound (f : Func) (h : isSpanTree f = true) :
     ∃ depth parc root, SpanForest f depth parc root :=
   spanForest_of_isSpanTree h
 
+/-! ### a line with a two-entry loop: the split into circuits is not unique -/
+
+/-- blocks 2,3,4,5 all on line 11 (block 2 also carries the function line 10); arcs
+0:0→2*, 1:2→3*, 2:2→5*, 3:3→5, 4:3→1, 5:4→2*, 6:5→3, 7:5→4 (* = on the tree). The loop {3,5} is
+entered at 3 (from 2) and at 5 (from 2): an irreducible region. -/
+def witFunc : Func :=
+  match build 48 7
+    [.func 1 11 22 [102, 110, 48] [115, 121, 110, 46, 99] 10 0, .blocks 6,
+     .arcs 0 [(2, 1)], .arcs 2 [(3, 1), (5, 1)], .arcs 3 [(5, 0), (1, 0)], .arcs 4 [(2, 1)],
+     .arcs 5 [(3, 0), (4, 0)],
+     .lines 2 [.file [115, 121, 110, 46, 99], .line 10, .line 11],
+     .lines 3 [.file [115, 121, 110, 46, 99], .line 11],
+     .lines 4 [.file [115, 121, 110, 46, 99], .line 11],
+     .lines 5 [.file [115, 121, 110, 46, 99], .line 11]] with
+  | .ok g => g.funcs.headD ⟨0, 0, 0, 0, 0, [], [], [], []⟩
+  | _ => ⟨0, 0, 0, 0, 0, [], [], [], []⟩
+
+/-- one run 0 → 2 → 5 → 4 → 2 → 3 → 5 → 3 → 1: every arc (the virtual one included) once -/
+def witFlow (e : Nat) : Nat := if e < 9 then 1 else 0
+
+/-- the gcda of that run: the four arcs that are not on the tree -/
+def witGcda : Gcda := ⟨48, 7, [.func 3 1 11 22, .arcs 8 [1, 1, 1, 1]]⟩
+
+/-- **The circuit split of a line with a two-entry loop is not unique, and the cycle search does
+not find a largest one.** On the closed witness `witFunc` (on-tree arcs form a spanning tree, the
+counters are a conserved flow, recovered exactly) line 11 is entered once from outside. The cycle
+search of `get_line_count` starts at block 2 with the circuit 2→3→5→4→2, after which no circuit
+is left: it reports 1 circuit, hence 2 for the line. But the same arc counts also split into the
+two circuits 2→5→4→2 and 3→5→3 (`validSplit`), which is what llvm-cov gcov 12+ finds by cycle
+cancelling: it prints 3 for that line (measured by the harness on the encoded files). For
+reducible regions the number of circuits is the sum of the back-arc counts whatever the search
+order; with two entries it depends on the order. (Known finding C08-irreducible-line-cycles.) -/
+theorem C08_cycle_split_not_unique :
+    isSpanTree (addVirtualArc 48 witFunc) = true ∧
+    flowB (addVirtualArc 48 witFunc) witFlow = true ∧
+    flowVals witFlow witFunc.arcs 0 = [1, 1, 1, 1] ∧
+    (linesToBlock witFunc).map (·.2) = [[2], [2, 3, 4, 5]] ∧
+    cyclesOf (cyclesCount (addVirtualArc 48 witFunc) (circuitFuel (addVirtualArc 48 witFunc))
+      [2, 3, 4, 5] witFlow) = some 1 ∧
+    validSplit (addVirtualArc 48 witFunc) witFlow [2, 3, 4, 5] [[2, 7, 5], [3, 6]] = true ∧
+    lineCountOf (compute ⟨48, 7, [witFunc]⟩ [witGcda] true) 11 = some 2 := by
+  decide +kernel
+
 /-! ### the hypotheses are satisfiable -/
 
 /-- an if/else diamond in the LLVM 4.8 layout: block 0 = entry, 1 = exit; arcs
